@@ -73,6 +73,10 @@ CHECKS = {
    "TLA+ spec Footnote.tla (generator + model of the bookkeeping in an intended and an as-coded mode) model-checked by TLC; every enumerated abstract document concretised and converted; observed ids / hrefs / numbers judged by the TLA+ acceptor TraceFootnote.tla; two known findings matched by cause",
    "TLC enumerates every document of up to 3 (thorough: 4) items over definitions (optionally referencing another footnote in their body) and references in 9 placements (plain, emphasis, link text, image alt, heading, table cell, list item, block quote, strikethrough) with 2 labels: 18278 (thorough ~400k) documents, checks the P-invariants on the intended model and exhibits the known classes on the as-coded model; each document is converted under 3 configurations and TLC checks on the OUTPUT: items numbered fn:1..n in order, every reference links to an existing item and shows its number, ids distinct, every item has a rendered reference, back-links and references correspond one to one and sit in the right item. 8000 (150000) footnote-soup documents go through the same acceptor. Known findings are recognised by cause using a parse without the footnote AST transformer.",
    "TLC, Json/IOUtils; strict tokenizer; default id forms; extension.NewFootnoteBlockParser/NewFootnoteParser used without the transformer for cause analysis", "DESIGN.md 3.5, 5/C16, 6"),
+ "C05": ("model_checking",
+   "TLA+ acceptor AstShape.tla (link consistency as derived from the child-sequence model of AstTree.tla, kind grammar, position clauses) evaluated by TLC on the projection of every distinct tree shape returned by the real Parse; workload from the TLC-enumerated Slots.tla product, short strings, repository and mutated documents under all parser configurations",
+   "Each document (Slots.tla product, all strings of length <= 3 over 22 symbols, repository examples, 3000 (60000) mutated documents, footnote orderings, tab-indented fences, Setext fallbacks) is parsed under 8 rotating (thorough: all 32) parser configurations; the tree is read through public accessors only (children forward and backward, Parent, NextSibling, PreviousSibling, ChildCount, HasChildren, kinds, levels, block lines, text / info / closure / raw-HTML segments), positions are renamed order-preservingly, and TLC checks every node of every distinct shape: forward list = reverse of backward list, count, parent and sibling links, no node twice, no bookkeeping kinds, container grammar, inline only below blocks, no link in link, levels, 0 <= Start <= Stop <= len, block lines increasing, text segments in document order inside the block's lines. 278k parses quick.",
+   "TLC, Json/IOUtils; projection code; kind-grammar constants", "DESIGN.md 3.13, 5/C05"),
 }
 
 NOT_YET = "check not built yet in this revision of /verif (see DESIGN.md section 5 for the planned TLA+ decision procedure)"
